@@ -94,6 +94,7 @@ func HarnessC18NameKernel() {
 }
 
 const c18Layout = "L[@reserve(\"a\")]"
+const c18LayoutWithComp = "L@component(\"~lc\", {t: 2})[@reserve(\"a\")]"
 const c18Comp = "<c>{{ t }}</c>"
 const c18Page = "@use(\"~main\")@insert(\"a\")P@component(\"~card\", {t: 1})@end"
 
@@ -102,11 +103,12 @@ const c18Page = "@use(\"~main\")@insert(\"a\")P@component(\"~card\", {t: 1})@end
 func HarnessC18Faulty() {
 	vfsReset()
 	files := []struct{ path, content string }{
-		{"templates/layouts/main.tw", c18Layout},
+		{"templates/layouts/main.tw", c18LayoutWithComp},
 		{"templates/components/card.tw", c18Comp},
 		{"templates/page.tw", c18Page},
+		{"templates/components/lc.tw", c18Comp}, // used by the layout only
 	}
-	which := vChoice("file", 3)
+	which := vChoice("file", 4)
 	kind := vChoice("fault", 5)
 	for i, f := range files {
 		if i != which {
@@ -131,7 +133,7 @@ func HarnessC18Faulty() {
 	tpl, err := newTemplate("templates", ".tw")
 	vCover("returned")
 	cwd := vfsCwd()
-	names := []string{"layouts/main", "components/card", "page"}
+	names := []string{"layouts/main", "components/card", "page", "components/lc"}
 	mustFail := kind == 0 || kind == 3 || kind == 4
 	if which == 2 && kind == 0 {
 		mustFail = false // a deleted page is simply not there
@@ -167,6 +169,16 @@ func HarnessC18EvaluateFile() {
 	vfsWriteFile("some/dir/file.txt", content)
 	x := string([]byte{vByte("x")})
 	data := map[string]any{"x": x}
+	switch vChoice("before", 3) {
+	case 1: // a template directory was loaded earlier in the process
+		vfsWriteFile("templates/p.tw", "p")
+		tpl, lerr := newTemplate("templates", ".tw")
+		vAssert(lerr == nil && tpl != nil, "valid-tree-loads")
+	case 2: // ... or failed to load
+		vfsWriteFile("broken/p.tw", "{{ 1 + }}")
+		tpl, lerr := newTemplate("broken", ".tw")
+		vAssert(lerr != nil && tpl == nil, "faulty-file-makes-loading-fail")
+	}
 	out1, err1 := EvaluateFile(vfsCwd()+"/some/dir/file.txt", data)
 	out2, err2 := EvaluateString(content, data)
 	vCover("evaluated")
